@@ -11,7 +11,7 @@ ID = "C11"
 PARALLEL = 16
 RULE = ("exhaustive: every dataset of n <= 10 (quick: n <= 7) sorted entries x all 2^(n-1) ways of cutting it into consecutive "
         "non-empty chunks: group-by on every key pattern (which neighbours share a key) for the encoded-ragged key column "
-        "(first=last shortcut; every (pattern, chunking) pair for n <= 9 / 7, a seeded 15% of the 4^9 pairs for n = 10) and for string and integer key columns (n <= 8 / 6); mean / bincount / histogram "
+        "(first=last shortcut; every (pattern, chunking) pair for n <= 9 / 7, a seeded 15% of the 4^9 pairs for n = 10) and for string and integer key columns (n <= 8 / 5); mean / bincount / histogram "
         "(explicit edges and bins+range) / k-mer counts (k=1,2,3) / chunk_entries / chunk_lines (n_entries 1..n+1) on fixed "
         "datasets; computation graphs (shared streams, unused nodes, stream roots) on all chunkings of n <= 6 / 5; then seeded "
         "random larger datasets (n <= 40) with sampled cut sets, random graphs, multi-root / reduction graphs and stream=True "
@@ -190,7 +190,7 @@ def _mk_graph(chunks_a, chunks_b, comps, root):
 def cases(tier, rng):
     big = tier in ("thorough", "widen")
     N = 10 if big else 7
-    NS = 8 if big else 6          # string / int key columns
+    NS = 8 if big else 5          # string / int key columns
     NG = 6 if big else 5
     # 0. NumPy's data-dependent default bins (domain note of the design): run every check
     for data in ([1, 3, 0, 2, 4], [0, 0, 7, 1]):
@@ -293,7 +293,7 @@ def cases(tier, rng):
                     roots.append(len(nodes) - 1)
                 yield {"op": "graph_many", "nodes": nodes, "roots": roots, "mode": "reduce"}
     # 3. stream=True genome pipelines evaluated with compute
-    P = 2500 if big else 400
+    P = 2500 if big else 250
     for _ in range(P):
         nchrom = rng.randrange(1, 5)
         sizes = [rng.randrange(3, 13) for _ in range(nchrom)]
